@@ -130,6 +130,14 @@ def replay_one(job):
         if jid % 5 == 4:
             tracer.reset()
             EV = tracer.EV
+    cmds = p.commands
+    if not late and jid % 5 == 1 and all(h[0] == "result" for h in hist):
+        # the caller keeps the commands (or just their dictionary) and lets go of the Program object itself before reading results
+        import gc
+
+        p = None
+        gc.collect()
+        res["program_dropped"] = True
     tracer.install()
     outcomes = []
     for call in hist:
@@ -160,7 +168,7 @@ def replay_one(job):
             cname = names[call[1] - 1]
             EV.append({"ev": "call_result", "c": cname})
             try:
-                cmd = p.commands[cname]
+                cmd = cmds[cname]
                 v = _plain_result(cmd)
                 EV.append({"ev": "ret_result", "c": cname, "ok": True, "tok": tracer.tok(v), "cls": "", "cause": ""})
                 outcomes.append(("ok", "", ""))
@@ -183,7 +191,7 @@ def replay_one(job):
     bad_values = []
     finished = []
     for c in range(1, n + 1):
-        cmd = p.commands.get(names[c - 1])
+        cmd = cmds.get(names[c - 1])
         fin = bool(getattr(cmd, "is_finished", False))
         finished.append(fin)
         if fin:
